@@ -186,6 +186,75 @@ fn run_case_budget(prior: PortSettings, entry: Entry, fault: Fault, fk: usize, b
     }
 }
 
+/// Several ports brought up AT THE SAME TIME, each on a thread of its own (a controller's bus and a bridge started
+/// together; one process serving several lines), some of them slow to apply settings: each constructor that returns Ok
+/// must leave ITS port at 19200 8N1 without flow control with a timeout applied, whatever the others are doing.
+fn concurrent_setups(rounds: usize, rep: &mut Report) {
+    use std::sync::{Arc, Barrier};
+    for round in 0..rounds {
+        let n = 2 + round % 3;
+        let barrier = Arc::new(Barrier::new(n));
+        let handles: Vec<_> = (0..n)
+            .map(|t| {
+                let barrier = barrier.clone();
+                std::thread::spawn(move || -> (String, Result<(), String>, PortSettings, Option<Duration>, usize) {
+                    let prior = PortSettings { baud_rate: BAUDS[(round + t) % BAUDS.len()], char_size: SIZES[(round + 2 * t) % SIZES.len()], parity: PARITIES[(round + t) % PARITIES.len()], stop_bits: STOPS[(round / 2 + t) % STOPS.len()], flow_control: FLOWS[(round + t) % FLOWS.len()] };
+                    let st = doubles::shared(prior);
+                    // thread 0 is the slow one in even rounds, the last thread in odd rounds; every third round nobody is
+                    let slow = match round % 3 {
+                        0 => t == 0,
+                        1 => t == n - 1,
+                        _ => false,
+                    };
+                    st.borrow_mut().settings_stall = slow.then(|| Duration::from_millis(4 + (round % 5) as u64));
+                    let port = InstrPort::scripted(st.clone(), FragReader::plain(vec![]), FragWriter::new(vec![], WriteAct::Accept(usize::MAX)));
+                    let entry = (round + t) % 3;
+                    barrier.wait();
+                    // the fast ones start while the slow one is in the middle of its setup
+                    if !slow && round % 2 == 0 {
+                        std::thread::sleep(Duration::from_millis(1));
+                    }
+                    let r = std::panic::catch_unwind(std::panic::AssertUnwindSafe(|| match entry {
+                        0 => {
+                            let mut p = port;
+                            flipdot_serial::configure_port(&mut p, Duration::from_millis(1234)).map_err(|e| e.to_string())
+                        }
+                        1 => SerialSignBus::try_new(port).map(|_| ()).map_err(|e| e.to_string()),
+                        _ => Odk::try_new(port, VirtualSignBus::new(vec![])).map(|_| ()).map_err(|e| e.to_string()),
+                    }));
+                    let r = match r {
+                        Ok(r) => r,
+                        Err(_) => Err("PANIC".to_string()),
+                    };
+                    let s = st.borrow();
+                    (format!("thread {} ({}, port at {:?}{})", t, ["configure_port", "SerialSignBus::try_new", "Odk::try_new"][entry], prior, if slow { ", slow to apply settings" } else { "" }), r, s.settings, s.timeout, s.log.len())
+                })
+            })
+            .collect();
+        for h in handles {
+            let sig = format!("concurrent-setups|round {}", round);
+            rep.case(Some(fnv(sig.as_bytes()) ^ rep.get("concurrent_setups")));
+            rep.count("concurrent_setups");
+            let fail = |rep: &mut Report, class: &str, what: String| {
+                rep.violation(MON, class, &sig, format!("{} ports set up at the same time, round {}: {}", n, round, what), J::obj(vec![("workload", J::s("concurrent setups")), ("round", J::us(round)), ("observed", J::s(what.clone()))]));
+            };
+            match h.join() {
+                Err(_) => fail(rep, "panic", "a setup thread died".into()),
+                Ok((who, Err(e), ..)) => fail(rep, if e == "PANIC" { "panic" } else { "spurious_error" }, format!("{}: {} without any injected fault", who, e)),
+                Ok((who, Ok(()), settings, timeout, events)) => {
+                    if settings != TARGET {
+                        fail(rep, "wrong_final_settings", format!("{}: Ok but the port is at {:?} ({} port calls were made)", who, settings, events));
+                    } else if timeout.is_none() {
+                        fail(rep, "no_timeout_applied", format!("{}: Ok but no read timeout was applied", who));
+                    } else {
+                        rep.count("concurrent_setups_ok");
+                    }
+                }
+            }
+        }
+    }
+}
+
 pub fn run(ctx: &Ctx) -> Outcome {
     let mut priors = vec![];
     for b in BAUDS {
@@ -289,6 +358,9 @@ pub fn run(ctx: &Ctx) -> Outcome {
                 rep.count("repeated_setups_of_one_port");
             }
         }
+        if i == 1 {
+            concurrent_setups(if ctx.quick() { 45 } else { 600 }, rep);
+        }
         rep.count("priors_done");
     });
     let mut floors = vec![
@@ -297,6 +369,7 @@ pub fn run(ctx: &Ctx) -> Outcome {
         floor("sub-millisecond, fractional and very long caller timeouts", report.get("unusual_timeouts_applied") == 135 * 10, report.get("unusual_timeouts_applied")),
         floor("ports that already carry a read timeout (equal to / different from the one asked for), every error kind at every fault point", report.get("cases_on_a_port_with_a_timeout_already_set") == (270 * 4 * 4 * FAULT_KINDS.len() * 4) as u64, report.get("cases_on_a_port_with_a_timeout_already_set")),
         floor("one port object configured 70 000 times", report.get("repeated_setups_of_one_port") == 70_000, report.get("repeated_setups_of_one_port")),
+        floor("two to four ports set up at the same time on threads of their own, one of them slow to apply settings", report.get("concurrent_setups_ok") >= 100, report.get("concurrent_setups_ok")),
         floor("every error kind (7, incl. Interrupted) at every fault point (4)", report.set_len("fault_kind_x_point") == 28, report.set_len("fault_kind_x_point")),
     ];
     for e in ["configure_port", "SerialSignBus", "Odk"] {
